@@ -1,6 +1,6 @@
 # Configuration of ./check C17 (fields: see props.d/C06.py).
 PROP = {
-    "regen_files": ["GenGuards.v", "GenSigs.v"],
+    "regen_files": ["GenGuards.v", "GenSigs.v", "GenSerde.v"],
     "num": 17,
     "runs": [{"tag": "c17", "bin": "c17"}],
     "mismatch_is_failing": True,
